@@ -8,6 +8,28 @@ COMMON_NOTE = ("Trusted: Coq 8.16.1 kernel (full .vo build, Print Assumptions = 
                "extraction with ExtrOcamlBasic only, ocaml/driver.ml, the Rust harness; the hand-written model is tied "
                "to /repo's source by the differential (correspondence) run of every check, the tables by the translator.")
 CLAIMS = {
+ "C04": ("Coq theorems about the model of io.rs: the writer's APDU header and the reader's interpretation agree for every body length <= 65535 "
+         "(reader returns exactly the packet, leaves exactly the rest; the codec's own length parser agrees), k concatenated packets are read back as "
+         "those k packets, a stream ending inside a packet never yields a packet, and reading over ANY chunking with Pending wake-ups anywhere equals "
+         "reading the flat stream (induction over the chunk list). Tie: the real PacketTransport over an instrumented AsyncRead: every partition of "
+         "short streams, random partitions of 1-5 real packets, EOF at every position, header agreement through the real writer for body lengths "
+         "0..1024+boundaries (0..65535 in thorough). Partial: tokio's read_exact contract is modelled, not proved.", "DESIGN.md section 6, C04"),
+ "C05": ("Coq theorems about the model of the sequence machines, for every byte stream: the run is command, acknowledgement, then (read, acknowledge, "
+         "yield)* with nothing after a final item (run_shape/body_shape), and for well-formed scripts exactly the expected trace with the rest of the "
+         "stream untouched (induction over the script); obligation by computation: the 17 regenerated into_stream shapes, reply enums, commands and "
+         "final-variant sets equal the specification table. Tie: all 17 real into_stream's against a scripted peer logging writes/reads/items: all "
+         "scripts to depth 4 (5 thorough) over each reply alphabet with queued bytes behind the final packet; expected traces computed from the "
+         "SPECIFICATION table.", "DESIGN.md section 6, C05"),
+ "C06": ("Coq theorems for every byte stream: a run is [command; failed read; one error] or command+acknowledgement+body where an error item is the "
+         "last event, unique, and directly follows the failed read (so no write follows it and an uninterpretable packet is never acknowledged); same "
+         "for the upload loop. Tie: every fault kind (NACK / foreign frame for the acknowledgement, control field outside the reply set, malformed body, "
+         "truncated packet, end of stream) at every position behind every valid prefix to depth 3 (4 thorough), all 17 sequences.", "DESIGN.md section 6, C06"),
+ "C11": ("Coq theorems about the upload loop for every byte stream: each data request for an announced id is answered by exactly one packet, the "
+         "encoding of (id, offset, block_of block offset content), block_of = firstn block (skipn offset content); anything else ends with one error "
+         "and no write; manifest = present recognised files with true sizes; obligations by computation: regenerated path table = Feig table, reply "
+         "set = specification. Tie: the real WriteFile::into_stream over real files in a scratch directory (subsets of the 21 paths + unrelated files, "
+         "sizes around the block size, block sizes 1..32768, repeated / overlapping / past-EOF requests, unknown ids, missing fields). Partial: "
+         "read_at and file sizes < 2^32 are assumed.", "DESIGN.md section 6, C11"),
  "C13": ("Coq theorems about the decode loop the derive macro generates, for every field list and every field decoder: any permutation of "
          "pairwise-distinct tagged groups decodes to the same value (one loop lemma covers declaration order and every permutation), a second "
          "group for a seen tag is DuplicateTag of that tag, all missing mandatory tags are named (sorted), an unknown tag ends the loop handing "
